@@ -135,7 +135,7 @@ fn arb_state(inp: &[u8; 216]) -> (Idea, [u8; 8]) {
 verif_harness! {
     name: idea_crypt_w_enc,
     bytes: 216,
-    unwind: 54,
+    unwind: 66,
     stubs: [(crate::Idea::mul, stub_mul)],
     prop: |inp| {
         let (c, blk) = arb_state(inp);
@@ -149,7 +149,7 @@ verif_harness! {
 verif_harness! {
     name: idea_crypt_w_dec,
     bytes: 216,
-    unwind: 54,
+    unwind: 66,
     stubs: [(crate::Idea::mul, stub_mul)],
     prop: |inp| {
         let (c, blk) = arb_state(inp);
